@@ -91,6 +91,8 @@ type CRLSpec struct {
 	SigOverride []byte // use this signature value instead of signing (a signature replayed from another document)
 	AlgOID     asn1.ObjectIdentifier // when set: the OID written into both AlgorithmIdentifiers (the signature is still made with Alg)
 	AlgParams  int                   // with AlgOID: 0 = parameters absent, 1 = NULL
+	Indirect   *CA                   // when set: a critical issuingDistributionPoint with indirectCRL=TRUE is added (the
+	                                 // caller appends entries whose certificateIssuer names this CA)
 	RawIssuer  []byte                // when set: the DER of the issuer Name written into the tbsCertList
 	AKIRaw     []byte                // when set: the authorityKeyIdentifier extension value, verbatim
 	Sig        []byte // built: the signature value
@@ -144,7 +146,7 @@ func (c *CRLSpec) Build() *CRLSpec {
 			c.Alg = ECDSASHA256
 		}
 	}
-	if c.CritUnknown && (c.Version == 1 || c.NoExts) {
+	if (c.CritUnknown || c.Indirect != nil) && (c.Version == 1 || c.NoExts) {
 		c.Version, c.NoExts = 2, false // an unknown critical extension needs a list that can carry extensions
 	}
 	ver := c.Version
@@ -216,6 +218,13 @@ func (c *CRLSpec) Build() *CRLSpec {
 							var nb cryptobyte.Builder
 							nb.AddASN1Int64(c.Number)
 							b.AddASN1OctetString(nb.BytesOrPanic())
+						})
+					}
+					if c.Indirect != nil {
+						b.AddASN1(cbasn1.SEQUENCE, func(b *cryptobyte.Builder) {
+							b.AddASN1ObjectIdentifier(asn1.ObjectIdentifier{2, 5, 29, 28}) // issuingDistributionPoint
+							b.AddASN1Boolean(true)
+							b.AddASN1OctetString([]byte{0x30, 0x03, 0x84, 0x01, 0xff}) // SEQUENCE { indirectCRL [4] TRUE }
 						})
 					}
 					if c.CritUnknown {
@@ -443,4 +452,22 @@ func describeSerials(ss []*big.Int) string {
 		sb.WriteString(s.Text(16))
 	}
 	return sb.String()
+}
+
+// CertificateIssuerExt builds crlEntryExtensions holding a critical certificateIssuer extension that names ca: in an
+// indirect CRL this entry (and those after it) speak about certificates issued by ca, not by the CRL's issuer.
+func CertificateIssuerExt(ca *CA) []byte {
+	var gn cryptobyte.Builder
+	gn.AddASN1(cbasn1.SEQUENCE, func(b *cryptobyte.Builder) {
+		b.AddASN1(cbasn1.Tag(4).ContextSpecific().Constructed(), func(b *cryptobyte.Builder) { b.AddBytes(ca.Cert.RawSubject) })
+	})
+	var b cryptobyte.Builder
+	b.AddASN1(cbasn1.SEQUENCE, func(b *cryptobyte.Builder) {
+		b.AddASN1(cbasn1.SEQUENCE, func(b *cryptobyte.Builder) {
+			b.AddASN1ObjectIdentifier(asn1.ObjectIdentifier{2, 5, 29, 29})
+			b.AddASN1Boolean(true)
+			b.AddASN1OctetString(gn.BytesOrPanic())
+		})
+	})
+	return b.BytesOrPanic()
 }
